@@ -24,6 +24,7 @@ INF = float("inf")
 FINDING_MINCIRCLE = "stops-mincircle-none"
 FINDING_NANZ = "stops-nan-altitude-statistics"
 FINDING_LOOSE = "stops-mincircle-not-enclosing"
+FINDING_DISPATCH = "stops-dispatch-verbose-as-downsampling"
 
 
 # ------------------------------------------------------------------------------------------------
@@ -278,24 +279,30 @@ class P(Prop):
     ]
     partial = []
     open_statements = [
-        "IEEE doubles: optimal_bracketed / optimal_rounded are proved for an abstract rounded addition (monotone, relative error u, no associativity); that binary64 addition satisfies these hypotheses (no NaN, no overflow, u = 2^-53) is assumed, not proved in Lean (Float is opaque), and is what the transfer check on doubles samples, with the same tolerance shape and the generous constant 1e-9",
-        "findStopsGlobal: the model (findStopsGlobalPy) reads the observations (x, y, z, t), computes the squared planimetric distances and the durations itself and applies the three tests, the final filter and the identifiers; minCircle (Welzl, randomised) and the temporal resampling `track ** (size/downsampling)` remain parameters: the check computes the circles with exact rational geometry — except the entries where tracklib's minCircle returns None (recorded from the run) and circles through >= 3 distinct fixes whose exact diameter equals the limit (doubles decide: read off the run) — and takes the resampled track from tracklib; that the circles handed to the model enclose their segments (hypothesis hc of stops_criterion / find_stops_global) is CHECKED by the driver on every case (enclosedB, theorem enclosedB_sound); that they are minimal (hmin of stops_fit_in_circle) and that tracklib's Welzl implementation returns them is not proved — the latter is what the cell-by-cell comparison of the reward matrix samples",
+        "IEEE doubles: optimal_bracketed_fl / optimal_rounded_fl prove T2 for bracketed sums / T2-up-to-rounding for the addition a (+) b = fl(a + b) of ANY rounding function fl on an ordered field that is (1) monotone and (2) within u|x| of x (no associativity; monotonicity of the rounded addition and of the embedding are now derived, not assumed). What stays assumed about binary64 is exactly that the sum of two doubles is fl(exact sum) for such an fl with u = 2^-53 — true of round-to-nearest-even when no sum overflows and no operand is NaN (sums in the subnormal range are exact); Float is opaque in Lean, so (1) and (2) are not proved for the hardware and are what the transfer check on doubles samples, with the same tolerance shape and the generous constant 1e-9",
+        "findStopsGlobal: the model (findStopsGlobalPy) reads the observations (x, y, z, t), computes the squared planimetric distances and the durations itself and applies the three tests, the final filter and the identifiers; minCircle is now modelled ON ITS OWN (Model/MinCircle.lean: __welzl, __circle, ENUCoords.__eq__, the random draws as an explicit parameter; stream `mc`, theorems mincircle_*, circle_*), and composed with the reward matrix in the theorems (stops_fit_in_circle_mincircle: table circOfMinCircle, one draw sequence per call, minimality proved, enclosure the only hypothesis); in the DRIVEN findStopsGlobalPy its answers and the temporal resampling `track ** (size/downsampling)` remain parameters: driving the composition would need the draws of every minCircle call of a run (one global random stream shared by all segments) and the code's rounded square roots / complex circumcentre on doubles, so the check still computes the circles with exact rational geometry — except the entries where tracklib's minCircle returns None (recorded from the run) and circles through >= 3 distinct fixes whose exact diameter equals the limit (doubles decide: read off the run) — and takes the resampled track from tracklib; that the circles handed to the model enclose their segments (hypothesis hc of stops_criterion / find_stops_global) is CHECKED by the driver on every case (enclosedB, theorem enclosedB_sound); it is NOT true of tracklib's minCircle in general (theorem mincircle_not_enclosing), nor is minimality (hmin of stops_fit_in_circle): proved only for the leaves (circle_two_minimal, circle_three_minimal) and for inputs of <= 2 fixes (mincircle_small); for >= 3 fixes: every answer that encloses the input IS the minimal circle (mincircle_enclosing_is_minimal; cross-checked on every mc case against the harness's exact geometry), on <= 3 fixes every circle returned does (mincircle_three); for >= 4 fixes which draw sequences give an enclosing answer is open",
+        "minCircle on doubles: the model is exact (squared radii, rational circumcentre); the stream `mc` compares tracklib's doubles with it up to 1e-9 and does not compare inputs where a fix lies exactly on the circle through three other fixes (the code tests it against a centre computed in rounded complex arithmetic: the doubles decide, and the number of draws then differs) — about 40 % of the inputs generated (lattice fixes are often cocircular), tagged in the input histogram",
         "findStopsGlobal with downsampling > 1: coordinates and times of the resampled track are interpolated doubles on which the code's own doubles (sqrt of a rounded sum, circumcentre, difference of absolute times) are not exact; a case with a value within 1e-9 of a threshold is not judged (tagged in the input histogram). Lengths are compared through their squares in the model (exact for the integer / dyadic tracks generated)",
-        "findStopsGlobal: tracklib's minCircle sometimes returns a circle that does NOT enclose the segment (its three-point case returns the smallest two-point circle containing the third point instead of the circle through the three boundary points Welzl's recursion needs; about 40 %% of the random orders on the five lattice fixes of the witness): a reward is granted where the documented criterion gives 0. The circle returned is recorded from the run and handed to the model as such (the certificate enclosedB then rightly fails); class '%s', judged once it is listed in known_findings.json (findings/C12.json)" % FINDING_LOOSE,
+        "findStopsGlobal: tracklib's minCircle sometimes returns a circle that does NOT enclose the segment (its three-point case returns the smallest two-point circle containing the third point instead of the circle through the three boundary points Welzl's recursion needs; about 40 %% of the random orders on the five lattice fixes of the witness): a reward is granted where the documented criterion gives 0 (the routine's defect is theorem mincircle_not_enclosing about its model; circle_three_minimal / mincircle_three say why it needs four fixes). The circle returned is recorded from the run and handed to the model as such (the certificate enclosedB then rightly fails); class '%s', judged once it is listed in known_findings.json (findings/C12.json)" % FINDING_LOOSE,
         "findStopsGlobal on a track where every altitude of a reported stop is NaN raises ZeroDivisionError (the AVERAGER of no value) after the segmentation was computed: class '%s'; tracks where that can happen are generated once the class is listed in known_findings.json (findings/C12.json)" % FINDING_NANZ,
-        "findStopsGlobal: when tracklib's minCircle returns None for a segment (three collinear boundary points met in some random orders of Welzl's algorithm) the code writes reward 0 where the documented criterion rewards the segment; the model has this case (`small = none`), the oracle demands the optimum of the DOCUMENTED criterion and reports the loss (class '%s')" % FINDING_MINCIRCLE,
+        "findStopsGlobal: when tracklib's minCircle returns None for a segment (three collinear boundary points met in some random orders of Welzl's algorithm) the code writes reward 0 where the documented criterion rewards the segment (theorems mincircle_none, mincircle_none_same_place about the routine's model; mincircle_none_only_collinear: never without three collinear entries); the model has this case (`small = none`), the oracle demands the optimum of the DOCUMENTED criterion and reports the loss (class '%s')" % FINDING_MINCIRCLE,
+        "findStops(track, spatial, temporal, MODE_STOPS_GLOBAL, verbose=False) passes `verbose` where findStopsGlobal expects `downsampling`: every stop is reported with id_ini = id_end = 0 (theorem find_stops_dispatch_silent; the model has the dispatcher: findStopsPy); the same positional slip exists for MODE_STOPS_RTK. Class '%s': the identifiers are judged against the track itself once the class is listed in known_findings.json (findings/C12.json); until then these calls are compared with the model only" % FINDING_DISPATCH,
         "findStopsGlobalForRTK (outside the property's anchors): its tests are still exclusive (`<= duration`, `< std_max`) and its source comment documents a factor 0.33 under the root that the code does not have; only the delegation and the correspondence of its matrix construction are checked",
         "simplify's built-in cost functions (modes 4-6: minimum bounding rectangle geometry) are a parameter of the model; the check evaluates the module's own functions with the requested tolerance",
     ]
     modelled = ("segmentation.optimalPartition (N = rows-1, D/M tables filled by increasing diagonals, both direction tests as written), "
                 "backtracking, backward; optimalSegmentation INCLUDING the call protocol of the cost function (is-None test on glob_param, 3/4 "
                 "positional arguments, defaults, TypeError), the two loops filling the matrix, C + C.T, degenerate track sizes; "
-                "simplification.optimalSimplification (parameter and direction forwarded, b8f1113), simplify() modes 4-8; findStopsGlobal's and "
+                "simplification.optimalSimplification (parameter and direction forwarded, b8f1113), simplify() modes 4-8, "
+                "TrackCollection.simplify for the free modes (collectionSimplifyFree); findStopsGlobal's and "
                 "findStopsGlobalForRTK's reward matrix (row loops with break/continue, thresholds as written, C + C.T), their call of "
                 "optimalPartition(MAXIMIZE); findStopsGlobal from the caller's arguments (findStopsGlobalPy): choice of the track "
                 "(downsampling > 1: the resampled copy), planimetric distance2DTo and elapsed time read from the observations (x, y, z, t), "
                 "the three tests, the final filter, id_ini / id_end / nb_points (multiplied by downsampling), errors on tracks of 0..2 "
-                "observations; minCircle, the temporal resampling, the RTK variant's geometry and simplify's built-in cost functions are parameters")
+                "observations; the dispatcher findStops(..., MODE_STOPS_GLOBAL, verbose) (findStopsPy: verbose lands in downsampling); "
+                "util/geometrics.minCircle / minCircleOfPoints / __welzl / __circle and ENUCoords.__eq__ (Model/MinCircle.lean: random draws as an "
+                "explicit parameter, radii through their squares) as a routine of its own; inside findStopsGlobalPy minCircle's answers, the "
+                "temporal resampling, the RTK variant's geometry and simplify's built-in cost functions are parameters")
     rule = ("all {0,1,2}-valued symmetric matrices over N <= 4 (quick) / <= 5 (thorough) candidates and all {0,1}-valued for N = 6 (thorough), "
             "both directions; random symmetric matrices up to N = 12 over small integers / dyadic rationals (exact, model at Rat) and over doubles "
             "(model at Float, bit patterns): uniform, gaussian, one-decimal and tie-rich values, 1e300 sentinels, +inf entries, N = 2..3, junk in the "
@@ -309,7 +316,10 @@ class P(Prop):
             "observations (duplicates, collinear points, exact ties with both thresholds, diameter 0 or negative) WITH AN ALTITUDE CHANNEL (noise and "
             "jumps well above the diameter, ramps, constants, NaN), downsampling omitted / 1 / 1.0 / True / 0.5 (the track itself) or 2, 3, 1.5, 1.25 "
             "(the criterion is read on tracklib's temporal resampling of the track), positional / keyword / default-argument / verbose call forms; "
-            "findStopsGlobalForRTK on dyadic tracks with and without altitudes. Oracle: enumeration of all 2^(N-2) chains "
+            "the same through the dispatcher findStops(track, spatial, temporal, MODE_STOPS_GLOBAL[, True / False]); "
+            "findStopsGlobalForRTK on dyadic tracks with and without altitudes; minCircle / minCircleOfPoints on 0..7 fixes of a small lattice, a "
+            "quarter lattice or a wide lattice, places met twice (same or another altitude), with random.randint replaced by a generated draw "
+            "sequence handed to the model as well (correspondence only: centre, squared radius, number of draws, None). Oracle: enumeration of all 2^(N-2) chains "
             "in exact arithmetic on the matrix RECOMPUTED from the cost function and the requested parameter; for findStopsGlobal the DOCUMENTED "
             "reward recomputed from the (resampled) track with exact rational PLANIMETRIC geometry — enclosing circle and duration only, no "
             "distance test — must be the matrix passed down cell by cell, the answer must be optimal for it, and the stops RETURNED (id_ini, id_end) "
@@ -324,10 +334,13 @@ class P(Prop):
         importlib.import_module("tracklib.algo.simplification")
         self.S = sys.modules["tracklib.algo.segmentation"]
         self.Z = sys.modules["tracklib.algo.simplification"]
+        self.G = importlib.import_module("tracklib.util.geometrics")
         self.np = np
         from tracklib.core import Obs, ENUCoords, ObsTime
         from tracklib.core.track import Track
         self.Obs, self.ENU, self.T, self.Track = Obs, ENUCoords, ObsTime, Track
+        from tracklib.core.track_collection import TrackCollection
+        self.TrackCollection = TrackCollection
         self.MODES = {"min": self.S.MODE_SEGMENTATION_MINIMIZE, "max": self.S.MODE_SEGMENTATION_MAXIMIZE}
         self.BUILTIN = {4: getattr(self.Z, "__cost_largest_deviation"), 5: getattr(self.Z, "__cost_mbr_ratio"),
                         6: getattr(self.Z, "__cost_largest_deviation_strict")}
@@ -403,7 +416,91 @@ class P(Prop):
             out.append(self.rand_sb(rng))
         for _ in range(400 if q else 4000):
             out.append(self.rand_stops(rng))
+        for _ in range(1500 if q else 15000):
+            out.append(self.rand_mc(rng))
         return out
+
+    # ---- minCircle (util/geometrics.py: __welzl, __circle) with the random draws as an explicit parameter
+    def rand_mc(self, rng):
+        n = rng.choice([0, 1, 2, 3, 3, 4, 4, 5, 5, 6, 6, 7])
+        fam = rng.choice(["lattice", "quarter", "wide", "flat", "flat", "witness"])
+        if fam == "witness" and n >= 3:
+            # the fixes of the known witnesses (stops-mincircle-not-enclosing / -none), moved, turned, scaled, shuffled
+            base = rng.choice([[(2, 1), (1, 1), (4, 1), (3, 2), (4, 0)], [(4, 0), (1, 0), (3, 2), (2, 2)],
+                               [(2, 3), (3, 1), (4, 2), (4, 4), (1, 5)], [(0, 2), (1, 1), (2, 3), (1, 2), (1, 4), (0, 4)]])
+            base = list(base)
+            rng.shuffle(base)
+            k, dx, dy, turn = rng.choice([1, 1, 2, 0.5]), rng.randrange(-3, 4), rng.randrange(-3, 4), rng.randrange(4)
+            def tf(x, y):
+                for _ in range(turn):
+                    x, y = -y, x
+                return [k * x + dx, k * y + dy, 0.0]
+            return {"kind": "mc", "pts": [tf(x, y) for x, y in base], "draws": [rng.randrange(0, 5040) for _ in range(rng.choice([7, 40]))],
+                    "form": rng.choice(["points", "track"])}
+        def coord(axis=0):
+            if fam == "flat":          # a narrow band: many obtuse triangles (the CANDIDATES step of __circle)
+                return float(rng.randrange(0, 9)) if axis == 0 else float(rng.randrange(0, 3))
+            if fam == "lattice":
+                return float(rng.randrange(0, 6))
+            if fam == "quarter":
+                return rng.randrange(0, 25) / 4.0
+            return float(rng.randrange(-40, 41))
+        zs = rng.choice(["zero", "zero", "var"])
+        pts = []
+        for _ in range(n):
+            if pts and rng.random() < 0.12:       # a fix met twice (same place; with `var` possibly another altitude)
+                b = rng.choice(pts)
+                pts.append([b[0], b[1], b[2] if zs == "zero" or rng.random() < 0.5 else float(rng.randrange(0, 4))])
+            else:
+                pts.append([coord(0), coord(1), 0.0 if zs == "zero" else float(rng.randrange(0, 4))])
+        return {"kind": "mc", "pts": pts, "draws": [rng.randrange(0, 5040) for _ in range(rng.choice([1, 7, 40]))],
+                "form": "points" if n == 0 else rng.choice(["points", "track"])}
+
+    def mc_tie(self, case):
+        """a point (by index) exactly on the circle through three other, non-collinear points: the code tests it against a
+        centre computed in rounded complex arithmetic — the doubles decide, the run is not compared (predicate on the input)"""
+        P = [(Fraction(x), Fraction(y)) for x, y, _ in case["pts"]]
+        for i, j, k in itertools.combinations(range(len(P)), 3):
+            if (P[j][0] - P[i][0]) * (P[k][1] - P[i][1]) - (P[k][0] - P[i][0]) * (P[j][1] - P[i][1]) == 0:
+                continue
+            (ax, ay), (bx, by), (cx, cy) = P[i], P[j], P[k]
+            d = 2 * ((bx - ax) * (cy - ay) - (by - ay) * (cx - ax))
+            b2 = (bx - ax) ** 2 + (by - ay) ** 2
+            c2 = (cx - ax) ** 2 + (cy - ay) ** 2
+            ux = ((cy - ay) * b2 - (by - ay) * c2) / d
+            uy = ((bx - ax) * c2 - (cx - ax) * b2) / d
+            for l in range(len(P)):
+                if l not in (i, j, k) and (P[l][0] - ax - ux) ** 2 + (P[l][1] - ay - uy) ** 2 == ux * ux + uy * uy:
+                    return True
+        return False
+
+    def mc_run(self, case):
+        G = self.G
+        dr = case["draws"]
+        count = [0]
+        class Src:
+            def randint(self_, a, b):
+                v = a + dr[count[0] % len(dr)] % (b - a + 1)
+                count[0] += 1
+                return v
+            def random(self_):
+                raise ArithmeticError("__circle perturbs a point by random.random() * 1e-10")
+        pos = [self.ENU(x, y, z) for x, y, z in case["pts"]]
+        real = G.random
+        G.random = Src()
+        try:
+            if case["form"] == "track":
+                t = self.Track([], 7)
+                for i, p in enumerate(pos):
+                    t.addObs(self.Obs(p, self.T.readUnixTime(i)))
+                c = G.minCircle(t)
+            else:
+                c = G.minCircleOfPoints(pos)
+        finally:
+            G.random = real
+        if c is None:
+            return {"res": "none"}
+        return {"c": [float(c.center.getX()), float(c.center.getY()), float(c.radius) ** 2], "draws": count[0]}
 
     def rand_matrix(self, rng, N, s):
         rows = N + 1
@@ -508,7 +605,7 @@ class P(Prop):
         mode = rng.choice(["min", "max"])
         form = rng.choice(["pos", "pos", "kw", "defmode" if mode == "min" else "pos", "omit" if g[0] == "none" else "pos"])
         if api == "simplify":
-            g, form = ["none"], rng.choice(["pos", "verbose"])
+            g, form = ["none"], rng.choice(["pos", "verbose", "collection"])   # collection: TrackCollection([t, t']).simplify(cost, mode)
         return {"kind": "fe", "api": api, "s": s, "sig": sig, "fam": fam, "A": self.fe_table(rng, n, s), "glob": g, "dflt": d,
                 "mode": mode, "form": form}
 
@@ -599,6 +696,13 @@ class P(Prop):
                     k = rng.randrange(1, n)
                     for p in pts[k:]:
                         p[2] += 60
+        if "ds" not in c and form in ("pos", "verbose") and rng.random() < 0.3:
+            # the dispatcher findStops(track, spatial, temporal, MODE_STOPS_GLOBAL[, verbose]): `verbose` lands in findStopsGlobal's
+            # `downsampling` (model: findStopsPy / boolNum); "vdefault" = the argument is omitted (True)
+            form = "dispatch"
+            c["ds"] = rng.choice([True, False, False])
+            if c["ds"] and rng.random() < 0.5:
+                c["vdefault"] = True
         if form != "pos":
             c["form"] = form
         if rng.random() < 0.15 and len({(p[0], p[1]) for p in pts}) == n:
@@ -680,6 +784,11 @@ class P(Prop):
             t["smode"] = case["smode"]
             g = case["tol"]
             t["tol"] = "none" if g[0] == "none" else ("falsy " if not pyval(g, self.np) else "") + g[0]
+        if k == "mc":
+            t["points"] = len(case["pts"])
+            t["form"] = case["form"]
+            t["input"] = ("exact tie with a three-point circle (doubles decide: not compared)" if self.mc_tie(case) else
+                          "a place met twice" if len({(x, y) for x, y, _ in case["pts"]}) < len(case["pts"]) else "distinct places")
         if k == "stops":
             g = self.geometry(case)
             t["criterion"] = "rtk variant (delegation only)" if case.get("rtk") else (
@@ -699,6 +808,8 @@ class P(Prop):
             return case["N"] >= 3
         if k in ("part", "partseq"):
             return len(case["C"]) - 1 >= 3 and not case.get("dom")
+        if k == "mc":
+            return len(case["pts"]) >= 3 and not self.mc_tie(case)
         if k == "stops":
             g = self.geometry(case)
             return len(g["R"]) >= 4 and not g.get("unsure") and any(v for r in g["R"] for v in r)
@@ -811,6 +922,8 @@ class P(Prop):
     def impl(self, case):
         k = case["kind"]
         S, Z = self.S, self.Z
+        if k == "mc":
+            return self.mc_run(case)
         if k in ("sym", "part"):
             s, M = self.matrix(case)
             form = case.get("form")
@@ -898,7 +1011,15 @@ class P(Prop):
                     r = Z.optimalSimplification(t, cost, g, m, False)
             else:
                 smode = Z.MODE_SIMPLIFY_FREE if case["mode"] == "min" else Z.MODE_SIMPLIFY_FREE_MAXIMIZE
-                r = Z.simplify(t, cost, smode) if form == "verbose" else Z.simplify(t, cost, smode, False)
+                if form == "collection":
+                    # core/track_collection.py: every track of the collection goes through simplify(track, cost, mode)
+                    out = self.TrackCollection([t, self.track(t.size())]).simplify(cost, smode)
+                    r = out[0]
+                    both = [[int(o.getObs(i).position.getX()) for i in range(o.size())] for o in (out[0], out[1])]
+                    if len(out) != 2 or both[0] != both[1]:
+                        return {"idx": both[0], "second": both[1], "matrix": rec.get("matrix")}
+                else:
+                    r = Z.simplify(t, cost, smode) if form == "verbose" else Z.simplify(t, cost, smode, False)
         finally:
             S.optimalPartition = real
         return {"idx": [int(r.getObs(i).position.getX()) for i in range(r.size())], "matrix": rec.get("matrix")}
@@ -1027,6 +1148,11 @@ class P(Prop):
                 self.S.optimalPartition, self.S.minCircle = spy, spy_mc
             if case.get("rtk"):
                 stops = self.S.findStopsGlobalForRTK(t, case["std"], case["duration"], 1, False)
+            elif form == "dispatch":
+                if case.get("vdefault") and case.get("ds", True) is True:
+                    stops = self.S.findStops(t, case["diameter"], case["duration"], self.S.MODE_STOPS_GLOBAL)
+                else:
+                    stops = self.S.findStops(t, case["diameter"], case["duration"], self.S.MODE_STOPS_GLOBAL, bool(case.get("ds", True)))
             elif form == "kw":
                 stops = self.S.findStopsGlobal(verbose=False, downsampling=case.get("ds", 1), duration=case["duration"],
                                                diameter=case["diameter"], track=t)
@@ -1158,6 +1284,10 @@ class P(Prop):
 
     def requests(self, case):
         k = case["kind"]
+        if k == "mc":
+            return ["C12.mincircle q 1/10000 %s %s" % (
+                ";".join(",".join(ratstr(Fraction(v)) for v in p) for p in case["pts"]) or "_",
+                ",".join(str(d) for d in case["draws"]))]
         if k in ("sym", "part"):
             s, M = self.matrix(case)
             m = 2 if case.get("modeval") in NEITHER else int(self.MODES[case["mode"]])
@@ -1171,6 +1301,8 @@ class P(Prop):
             WD, WG = self.fe_tables(case)
             s = case["s"]
             cmd = {"seg": "segpy", "simp": "simppy", "simplify": "simplify"}[case["api"]]
+            if case["api"] == "simplify" and case.get("form") == "collection":
+                cmd = "simplifyc"
             m = int(self.MODES[case["mode"]])
             if case["api"] == "simplify":
                 m = 7 if case["mode"] == "min" else 8
@@ -1230,7 +1362,8 @@ class P(Prop):
             # is the hypothesis of stops_criterion / find_stops_global
             cen = num["centres"]
             return ["C12.stopsd q %s %s %s %s %s %s %s %s %s" % (
-                ratstr(Fraction(case["diameter"])), ratstr(num["duration"]), ratstr(Fraction(ds)), self.mtok("q", [row(p) for p in own]),
+                ratstr(Fraction(case["diameter"])), ratstr(num["duration"]),
+                ("v1" if ds else "v0") if case.get("form") == "dispatch" else ratstr(Fraction(ds)), self.mtok("q", [row(p) for p in own]),
                 self.mtok("q", [row(p) for p in g["eff"]]) if ds > 1 else "_", self.mtok("q", circ), self.mtok("q", after),
                 self.mtok("q", [[c[0] for c in r] for r in cen]), self.mtok("q", [[c[1] for c in r] for r in cen]))]
 
@@ -1247,6 +1380,13 @@ class P(Prop):
         r = replies[0]
         if any(x == "bad-request" for x in replies):
             raise ValueError("bad-request")
+        if k == "mc":
+            if r == "none":
+                return {"res": "none"}
+            if r in ("random", "stuck"):
+                return {"err": "model:" + r}
+            cx, cy, r2, n, enc = r.split(" ")
+            return {"c": [float(Fraction(cx)), float(Fraction(cy)), float(Fraction(r2))], "draws": int(n), "enc": enc == "1", "r2": r2}
         if k == "partseq":
             return {"seq": [[int(x) for x in rr.split(" ")[0].split(",")] for rr in replies]}
         if k == "feseq":
@@ -1276,6 +1416,11 @@ class P(Prop):
                 out["segments"] = [[int(x) for x in it[0].split("-")] for it in items]
                 out["stops"] = [[Fraction(it[1]), Fraction(it[2]), int(it[3])] for it in items]
             return out
+        if k == "fe" and "|" in r:
+            a, b = r.split("|")          # collectionSimplifyFree on two equal tracks
+            if a != b:
+                return {"idx": [] if a == "_" else [int(x) for x in a.split(",")], "second": b}
+            r = a
         out = {"idx": [] if r == "_" else [int(x) for x in r.split(",")]}
         if k == "fe" and len(replies) > 1:
             out["matrix"] = replies[1]
@@ -1292,6 +1437,30 @@ class P(Prop):
 
     def compare(self, case, impl_out, model_out):
         k = case["kind"]
+        if k == "fe" and ("second" in impl_out or "second" in model_out):
+            return "TrackCollection.simplify: the two equal tracks of the collection are simplified differently: implementation %s / %s, model %s / %s" % (
+                impl_out.get("idx"), impl_out.get("second"), model_out.get("idx"), model_out.get("second"))
+        if k == "mc":
+            if model_out.get("enc") and case["pts"]:
+                # theorem mincircle_enclosing_is_minimal, checked on the model's run against the harness's own exact geometry
+                # (largest minimal circle over all triples): an enclosing answer has THE minimal squared radius
+                want = mec_r2([(Fraction(x), Fraction(y)) for x, y, _ in case["pts"]])
+                if Fraction(model_out["r2"]) != want:
+                    raise AssertionError("model: enclosing answer of squared radius %s, minimal enclosing circle %s" % (model_out["r2"], want))
+            if self.mc_tie(case):
+                return None
+            if "err" in impl_out or "err" in model_out:
+                return "minCircle: implementation %s, model %s" % (impl_out, model_out)
+            if ("res" in impl_out) != ("res" in model_out):
+                return "minCircle: implementation %s, model %s" % (impl_out, model_out)
+            if "res" in impl_out:
+                return None
+            if impl_out["draws"] != model_out["draws"]:
+                return "minCircle: %d random draws made, model %d" % (impl_out["draws"], model_out["draws"])
+            for a, b, w in zip(impl_out["c"], model_out["c"], ("centre x", "centre y", "squared radius")):
+                if abs(a - b) > 1e-9 * max(1.0, abs(a), abs(b)):
+                    return "minCircle: %s %r, model %r" % (w, a, b)
+            return None
         if case.get("dom"):
             return None   # single/no candidate, asymmetric matrix: outside the property's domain, behaviour left free
         if k == "feseq" and "seq" in impl_out:
@@ -1392,6 +1561,10 @@ class P(Prop):
     def spec(self, case, out):
         k = case["kind"]
         if case.get("dom"):
+            return None
+        if k == "mc":
+            # the property states nothing about minCircle by itself (its effect on findStopsGlobal is judged in the `stops`
+            # stream against the documented criterion): this stream is a correspondence of the routine with its model only
             return None
         if k == "feseq":
             if "seq" not in out:
@@ -1507,6 +1680,13 @@ class P(Prop):
         segments; a stop lost because minCircle returned None in the final filter is the known finding."""
         n = g["n"]
         ds = Fraction(case.get("ds", 1))
+        dispatch_silent = case.get("form") == "dispatch" and not ds > 0
+        if dispatch_silent:
+            # findStops(track, spatial, temporal, MODE_STOPS_GLOBAL, False): the caller asked for no downsampling at all — the stops
+            # are to be identified in the track itself; judged once the finding is listed (known_findings.json)
+            if FINDING_DISPATCH not in self.listed:
+                return None
+            ds = Fraction(1)
         if not ds > 0:
             return None
         idx = out["idx"]
@@ -1516,8 +1696,8 @@ class P(Prop):
         for st in out["stops"]:
             a, e = Fraction(st[0]) / ds, Fraction(st[1]) / ds
             if a.denominator != 1 or e.denominator != 1 or not (last < a <= e <= n - 3):
-                return "stops reported %s: (id_ini, id_end) / downsampling are not disjoint segments of the candidates 0..%d in increasing order" % (
-                    out["stops"], n - 2)
+                return "stops reported %s: (id_ini, id_end) / downsampling are not disjoint segments of the candidates 0..%d in increasing order%s" % (
+                    out["stops"], n - 2, " — findStops passed verbose=False as downsampling" if dispatch_silent else "")
             segs.append((int(a), int(e)))
             last = e
         got = sum((Dx[a][e + 1] for a, e in segs), Fraction(0))
@@ -1533,10 +1713,15 @@ class P(Prop):
                     return None
                 msg += " — minCircle returned a circle that does not enclose the segment(s) %s (row loops) / %s (final filter)" % (
                     [x[:2] for x in out.get("loose", [])], [x[:2] for x in out.get("loose_after", [])])
+            if dispatch_silent:
+                msg += " — findStops passed verbose=False as downsampling"
             return msg
         return None
 
     def classify(self, case, impl_out, msg):
+        if (case["kind"] == "stops" and case.get("form") == "dispatch" and case.get("ds") is False and msg
+                and "findStops passed verbose=False as downsampling" in str(msg)):
+            return FINDING_DISPATCH
         if case["kind"] == "stops" and not case.get("rtk") and msg and "minCircle returned None" in str(msg):
             return FINDING_MINCIRCLE
         if case["kind"] == "stops" and not case.get("rtk") and msg and "minCircle returned a circle that does not enclose" in str(msg):
@@ -1549,6 +1734,12 @@ class P(Prop):
     # ---------------------------------------------------------------- shrinking / search
     def shrink(self, case):
         k = case["kind"]
+        if k == "mc":
+            for i in range(len(case["pts"])):
+                yield dict(case, pts=case["pts"][:i] + case["pts"][i + 1:], form="points")
+            if len(case["draws"]) > 1:
+                yield dict(case, draws=case["draws"][:len(case["draws"]) // 2])
+            return
         if k == "sym":
             s, M = self.matrix(case)
             case = {"kind": "part", "s": "q", "mode": case["mode"], "C": M}
@@ -1654,6 +1845,50 @@ class P(Prop):
                     for mode in ("min", "max"):
                         yield dict(case, glob=g, sig=sig, mode=mode)
 
+
+# ---- minCircle inside the model (Model/MinCircle.lean): the two findings as theorems, and what the routine does guarantee ----
+P.theorems = P.theorems + [
+    ("TracklibVerif.Props.C12MinCircle", "TV.C12.mincircle_not_enclosing",
+     "finding stops-mincircle-not-enclosing as a theorem about the model: for the fixes (4,0),(1,0),(3,2),(2,2) and 14 listed draws minCircle returns centre (3,1), squared radius 2, and (1,0) is at squared distance 5 of the centre — not enclosed"),
+    ("TracklibVerif.Props.C12MinCircle", "TV.C12.mincircle_none",
+     "finding stops-mincircle-none as a theorem about the model: five distinct fixes, three of them collinear, 23 listed draws: minCircle returns None"),
+    ("TracklibVerif.Props.C12MinCircle", "TV.C12.mincircle_none_same_place",
+     "a place met twice at two altitudes plus any third fix: ENUCoords.__eq__ compares the altitude, both fixes join the boundary set, None (witness draws)"),
+    ("TracklibVerif.Props.C12MinCircle", "TV.C12.circle_two_minimal",
+     "__circle(p,q) in exact arithmetic: both points on the circle, no disc containing both is smaller (the true minimal circle)"),
+    ("TracklibVerif.Props.C12MinCircle", "TV.C12.circle_three",
+     "__circle(p1,p2,p3) in exact arithmetic: None iff collinear; the random.random() perturbation branches are dead; otherwise a circle enclosing the three points — a two-point CANDIDATE (then the smallest disc containing the three points, third point strictly inside, NOT on the circle) or, with no candidate, the circle THROUGH the three points"),
+    ("TracklibVerif.Props.C12MinCircle", "TV.C12.circle_three_minimal",
+     "__circle(p1,p2,p3) in exact arithmetic is the TRUE minimal enclosing circle of its three points in both cases (no candidate: the circumcentre is a convex combination of the points); Welzl's recursion needs the circle with the three points ON it — they differ exactly when there is a candidate: the defect behind mincircle_not_enclosing"),
+    ("TracklibVerif.Props.C12MinCircle", "TV.C12.mincircle_small",
+     "inputs of 0, 1, 2 fixes, EVERY draw sequence: the zero circle at (0,0) / on the fix / the circle on the diameter of two fixes that ENUCoords.__eq__ tells apart = the true minimal circle"),
+    ("TracklibVerif.Props.C12MinCircle", "TV.C12.mincircle_answer",
+     "for EVERY draw sequence: the model neither runs out of fuel nor perturbs; the answer is the leaf circle of a list R' of input points and, when a circle, encloses the (up to three) points it is built on — nothing more (mincircle_not_enclosing)"),
+    ("TracklibVerif.Props.C12MinCircle", "TV.C12.mincircle_none_only_collinear",
+     "minCircle returns None ONLY IF three entries of the input are collinear in the plane (two may be the same place): never on a track with no three collinear fixes, whatever the draws"),
+    ("TracklibVerif.Props.C12MinCircle", "TV.C12.mincircle_enclosing_is_minimal",
+     "whatever the draws: an answer of minCircleOfPoints that encloses every input fix (the driver's certificate enc) is THE minimal enclosing circle; so minCircle errs only by None or by not enclosing"),
+    ("TracklibVerif.Props.C12MinCircle", "TV.C12.mincircle_three",
+     "at most three fixes that ENUCoords.__eq__ tells apart when they differ, EVERY draw sequence: a circle returned encloses every fix and is THE minimal enclosing circle; with mincircle_none_only_collinear: None (three collinear entries) or exact — the defect needs four fixes"),
+    ("TracklibVerif.Props.C12MinCircle", "TV.C12.encloses_sound",
+     "the certificate `enc` the driver evaluates on every answer of the mc stream is sound"),
+]
+
+# ---- rounded addition as the rounding of the exact sum; the dispatcher findStops ----
+P.theorems = P.theorems + [
+    ("TracklibVerif.Props.C12Round", "TV.C12.optimal_rounded_fl",
+     "T2 for the addition a (+) b = fl(a + b), ANY rounding fl of an ordered field that is monotone and has relative error u: monotonicity of the rounded addition and of the embedding are proved, not assumed; same bound as optimal_rounded, both directions"),
+    ("TracklibVerif.Props.C12Round", "TV.C12.optimal_bracketed_fl",
+     "optimal_bracketed for the addition a (+) b = fl(a + b) of ANY monotone rounding fl: the monotonicity of the rounded addition is proved from that of fl"),
+    ("TracklibVerif.Props.C12Collection", "TV.C12.collection_simplify_each",
+     "T3: TrackCollection.simplify(cost, MODE_SIMPLIFY_FREE / _MAXIMIZE) returns, in order, simplify(track, cost, mode) of every track (each optimal for the requested direction by simplify_modes); if it raises, some simplify(track, ...) raised that exception after the earlier tracks were simplified"),
+    ("TracklibVerif.Props.C12Dispatch", "TV.C12.find_stops_dispatch_verbose",
+     "findStops(track, spatial, temporal, MODE_STOPS_GLOBAL[, True]) is findStopsGlobal with downsampling = 1 (verbose lands in the downsampling parameter; True is 1): find_stops_global applies to the dispatcher"),
+    ("TracklibVerif.Props.C12Dispatch", "TV.C12.find_stops_dispatch_silent",
+     "finding stops-dispatch-verbose-as-downsampling as a theorem about the model: findStops(..., MODE_STOPS_GLOBAL, False) reports the same stops as downsampling = 1 but with id_ini = id_end = 0 for every stop"),
+    ("TracklibVerif.Props.C12MinCircleStops", "TV.C12.stops_fit_in_circle_mincircle",
+     "T3 with minCircle AS MODELLED (circOfMinCircle: minCircleOfPoints on the fixes of each segment, any draw sequence per call): if the circles returned enclose their segments and the call did not return None, the reward of (a,b) is (b-a)^2 exactly when the segment lasts >= duration and fits in SOME disc of diameter <= diameter; minimality is proved, no longer assumed"),
+]
 
 # ---- TIE3: translation tie of optimalPartition's D / M tables (generated TV.Gen.Segmentation.optimalPartition_tables) ----
 P.tie_modules = getattr(P, "tie_modules", []) + ["TracklibVerif.Tie.C12"]
